@@ -77,6 +77,15 @@ structure ExpField where
 /-- A property is "optional on the wire" when marked optional or null-admitting. -/
 def Prp.opt (p : Prp) : Bool := p.optional || p.ty.nullAdmitting
 
+def expectedDflt (ty : Ty) (opt : Bool) : Dflt :=
+  match ty with
+  | .strLit s => .str s
+  | _ => if opt then .none else .nothing
+
+theorem expectedDflt_nonlit (ty : Ty) (o : Bool) (h : ty.isStrLit = false) :
+    expectedDflt ty o = if o then .none else .nothing := by
+  cases ty <;> simp_all [expectedDflt, Ty.isStrLit]
+
 def expectedField (M : Model) (p : Prp) : ExpField :=
   let t := pyTyOf M tyFuel p.ty
   let v := match p.ty with
@@ -86,7 +95,7 @@ def expectedField (M : Model) (p : Prp) : ExpField :=
   { wire := p.name
     ty := if p.opt then t.optional else t
     required := !p.opt && !p.ty.isStrLit
-    dflt := match p.ty with | .strLit s => .str s | _ => if p.opt then .none else .nothing
+    dflt := expectedDflt p.ty p.opt
     vld := v
     -- written even when unset iff null-admitting or a string literal
     omitDflt := !(p.ty.nullAdmitting || p.ty.isStrLit) }
